@@ -59,8 +59,9 @@ class QueryFamily:
         # cache-path findings: every configuration with caching DISABLED agrees with the specification, the
         # cached one lost or duplicated rows (C05 / C20 root causes)
         spec = self.view(case, so, True)
-        if all(self.view(case, io[k], True) == spec for k in ('off', 'off2')) and 'on' in self.cache_configs:
-            return 'C05-cache-path'
+        if all(self.view(case, io[k], True) == spec for k in ('off', 'off2')) and 'on' in self.cache_configs \
+                and io.get('mixed_level_retrieval'):
+            return 'C05-wildcard-retrieval'
         return None
 
     def nontrivial(self, case, io):
@@ -84,6 +85,8 @@ class QueryFamily:
         else:
             d['rows_0' if not rows else 'rows_some'] += 1
         d['all_selected' if all_selected(case) else 'projection'] += 1
+        d['cache_retrievals'] += io.get('cache_retrievals', 0)
+        d['cases_with_cache_hits'] += 1 if io.get('cache_retrievals', 0) else 0
         d['form_' + case.get('form', 'set_of')] += 1
         return d
 
